@@ -25,6 +25,7 @@ type FnCase struct {
 	ErrRes  bool   `json:"err_result,omitempty"` // exec returns (NewErrorResult(err), nil) — Result style only
 	Retries int    `json:"retries,omitempty"`    // > 0: WithMaxRetries(Retries) is configured (exec never returns a Go error here, so it must run once)
 	FB      bool   `json:"fb,omitempty"`         // a fallback function is installed (must not be invoked)
+	CancelInExec bool `json:"cancel_in_exec,omitempty"` // the run's context is cancelled inside the exec function, which still returns normally: post receives exactly what exec returned
 	Conc    int    `json:"conc,omitempty"`       // a batch concurrency (and error mode) configured on the plain function node: must change nothing
 }
 
@@ -54,6 +55,8 @@ func runFnCase(cs *FnCase) (fs []finding) {
 	}
 	style := fmt.Sprintf("%s/%s/%s", rs(cs.PrepR), rs(cs.ExecR), rs(cs.PostR))
 
+	runCtx, cancelRun := context.WithCancel(context.Background())
+	defer cancelRun()
 	prepAny := func(ctx context.Context, s *flyt.SharedStore) (any, error) { return p, nil }
 	prepRes := func(ctx context.Context, s *flyt.SharedStore) (flyt.Result, error) { return flyt.NewResult(p), nil }
 	checkExecArg := func(v any, isErr bool) {
@@ -61,6 +64,9 @@ func runFnCase(cs *FnCase) (fs []finding) {
 		o.mu.Lock()
 		o.execCalls++
 		o.mu.Unlock()
+		if cs.CancelInExec {
+			cancelRun()
+		}
 		if isErr {
 			add("exec-arg-error-state", "exec function received an error-state Result for a plain prep value")
 		}
@@ -310,14 +316,22 @@ func runFnCase(cs *FnCase) (fs []finding) {
 		visited := false
 		probe := flyt.NewNode().WithExecFuncAny(func(ctx context.Context, v any) (any, error) { visited = true; return nil, nil })
 		f := flyt.NewFlow(node).Connect(node, "next", probe)
-		if err := f.Run(context.Background(), flyt.NewSharedStore()); err != nil {
-			add("flow-run-error", "flow run failed: %v", err)
-		}
-		if !visited {
-			add("flow-not-routed", "the node's action was not routed")
+		err := f.Run(runCtx, flyt.NewSharedStore())
+		if cs.CancelInExec {
+			// the flow is cut short after this node (C05); what matters here is what post was given
+			if visited {
+				add("flow-continued-after-cancel", "the next node ran although the context was cancelled")
+			}
+		} else {
+			if err != nil {
+				add("flow-run-error", "flow run failed: %v", err)
+			}
+			if !visited {
+				add("flow-not-routed", "the node's action was not routed")
+			}
 		}
 	} else {
-		act, err := flyt.Run(context.Background(), node, flyt.NewSharedStore())
+		act, err := flyt.Run(runCtx, node, flyt.NewSharedStore())
 		if err != nil || act != "next" {
 			add("run-outcome", "run returned (%q, %v)", act, err)
 		}
@@ -356,6 +370,9 @@ func runC17(c *Cfg) {
 					}
 					for p := 0; p < nz; p++ {
 						cases = append(cases, &FnCase{Family: "grid", PrepR: st&1 != 0, ExecR: st&2 != 0, PostR: st&4 != 0, Build: build, Context: ctx, P: p, E: (p*7 + 3) % nz, ErrRes: errRes})
+						if p%7 == 2 && ctx != "batch" { // the context is cancelled inside exec, exec returns normally
+							cases = append(cases, &FnCase{Family: "grid-cancel-in-exec", PrepR: st&1 != 0, ExecR: st&2 != 0, PostR: st&4 != 0, Build: build, Context: ctx, P: p, E: (p*7 + 3) % nz, ErrRes: errRes, CancelInExec: true})
+						}
 						if p%5 == 1 && ctx != "batch" { // a batch concurrency on a plain function node is inert
 							cases = append(cases, &FnCase{Family: "grid-conc", PrepR: st&1 != 0, ExecR: st&2 != 0, PostR: st&4 != 0, Build: build, Context: ctx, P: p, E: (p*7 + 3) % nz, ErrRes: errRes, Conc: 1 + p%3})
 						}
@@ -380,7 +397,7 @@ func runC17(c *Cfg) {
 		for _, f := range fs {
 			r.Violate("C17", "C17:"+f.key, f.detail, cs)
 		}
-		r.Nontrivial(fmt.Sprintf("%v%v%v %s %s %d %v %d %v", cs.PrepR, cs.ExecR, cs.PostR, cs.Build, cs.Context, cs.P, cs.ErrRes, cs.Retries, cs.FB) + fmt.Sprint(cs.Conc))
+		r.Nontrivial(fmt.Sprintf("%v%v%v %s %s %d %v %d %v", cs.PrepR, cs.ExecR, cs.PostR, cs.Build, cs.Context, cs.P, cs.ErrRes, cs.Retries, cs.FB) + fmt.Sprint(cs.Conc, cs.CancelInExec))
 		if cs.ErrRes && cs.P == 0 && r.SampleWanted("grid") {
 			r.Sample("grid", cs)
 		}
